@@ -385,13 +385,24 @@ def run(ctx: Ctx) -> None:
         ctx.exhaustive = False
         ctx.extra["universe"] = f"N=2 shard {shard}/{nsh} of the descriptions, all S x I of each"
     else:
-        cases = export_universe(ctx, 2, True, list(range(8)), 8, workers=2)
-        behaviours(ctx, 2, True, 0, 1, workers=4)
-        sh3 = [(ctx.seed + k) % 64 for k in range(4)]
-        cases += export_universe(ctx, 3, False, sh3, 64, workers=2)
-        behaviours(ctx, 3, False, sh3[0], 64, workers=4)
+        cases = export_universe(ctx, 2, False, list(range(4)), 4, workers=2)           # the whole N=2 universe
+        behaviours(ctx, 2, False, 0, 1, workers=4)
+        rsh = ctx.seed % 8
+        cases += export_universe(ctx, 2, True, [rsh], 8, workers=4)                     # + reversed orders / more options
+        sh3 = [(2 * ctx.seed + k) % 1024 for k in range(2)]
+        cases += export_universe(ctx, 3, False, sh3, 1024, workers=2)                  # + three functions
+        behaviours(ctx, 3, False, sh3[0], 1024, workers=4)
+        seen: set[str] = set()
+        uniq = []
+        for c in cases:
+            k = json.dumps([c["desc"], c["S"], c["I"]], sort_keys=True)
+            if k not in seen:
+                seen.add(k)
+                uniq.append(c)
+        cases = uniq
         ctx.exhaustive = True
-        ctx.extra["universe"] = f"N=2 rich: complete; N=3: shards {sh3} of 64 (descriptions), all S x I of each"
+        ctx.extra["universe"] = (f"N=2: complete (all descriptions x S x I); N=2 rich: shard {rsh}/8; N=3: shards {sh3} of 1024 "
+                                 "(by description), all S x I of each")
     stage("tlc universe + behaviours")
     jobs = [{"desc": c["desc"], "S": c["S"], "inputs": c["inputs"], "needed": c["needed"], "must": c["must"],
              "cut": c["cut"], "dontcare": bool(c["surplus"]) or c["shadowed"]} for c in cases]
